@@ -42,5 +42,30 @@ let handle op args = match op, args with
      | None -> "err full file does not load"
      | Some expected ->
        sweep (lens_of lens full) full (fun p -> cls expected (decode_trk (bool_of_string st) offs p)))
+  (* partial reads through the array proxy: load (header readable) then fileslice of C06 *)
+  | "psingle", [hs; vox; be; step; shape; w; h; lens] ->
+    let full = bytes_of_hex h in
+    let hs = z_of_string hs and vox = z_of_string vox and w = z_of_string w in
+    let shape = zlist_of_string shape and step = bool_of_string step in
+    let run p = decode_partial (decode_single false hs vox (z_of_int 0) (bool_of_string be) p <> None) p step shape w vox in
+    (match run full with
+     | None -> "err full file does not give the slice"
+     | Some expected -> sweep (lens_of lens full) full (fun p -> cls expected (run p)))
+  | "pimg", [off; step; shape; w; h; lens] ->
+    let full = bytes_of_hex h in
+    let off = z_of_string off and w = z_of_string w in
+    let shape = zlist_of_string shape and step = bool_of_string step in
+    let run p = decode_partial (p <> []) p step shape w off in
+    (match run full with
+     | None -> "err full file does not give the slice"
+     | Some expected -> sweep (lens_of lens full) full (fun p -> cls expected (run p)))
+  | "pmgh", [hr; doff; ftr; step; shape; w; h; lens] ->
+    let full = bytes_of_hex h in
+    let hr = z_of_string hr and doff = z_of_string doff and ftr = z_of_string ftr and w = z_of_string w in
+    let shape = zlist_of_string shape and step = bool_of_string step in
+    let run p = decode_partial (decode_mgh false hr doff (z_of_int 0) ftr p <> None) p step shape w doff in
+    (match run full with
+     | None -> "err full file does not give the slice"
+     | Some expected -> sweep (lens_of lens full) full (fun p -> cls expected (run p)))
   | _ -> "err driver:badop"
 let () = run_lines handle
